@@ -1,4 +1,5 @@
 import Afkak.Murmur
+import Afkak.Assign
 /-!
 # Partitioners (`afkak/partitioner.py`)
 
@@ -13,6 +14,27 @@ open Afkak.Consts Afkak.Murmur
 def hashed (key : List UInt8) (ps : List Int) : Option Int :=
   if ps.length = 0 then none
   else ps[((pureMurmur2 key) &&& hashedPositiveMask) % ps.length]?
+
+/-- A partition key as the caller passes it: `bytes`/`bytearray`, or a text string (its code points). -/
+inductive Key
+  | bytes (b : List UInt8)
+  | text (cps : List Nat)
+  deriving Repr, DecidableEq
+
+/-- `HashedPartitioner._hash`'s coercion: a text key is encoded as UTF-8 (`bytearray(key, "UTF-8")`,
+    no normalisation; lone surrogates raise `UnicodeEncodeError`: `none`), bytes are taken as they
+    are.  The UTF-8 encoder is the model's own (`Afkak.Assign.utf8Encode`, RFC 3629), not Python's. -/
+def keyBytes : Key → Option (List UInt8)
+  | .bytes b => some b
+  | .text cps => match Afkak.Assign.utf8Encode cps with
+    | .ok b => some b
+    | .error _ => none
+
+/-- `HashedPartitioner.partition(key, partitions)` for a key of either form. -/
+def hashedKey (k : Key) (ps : List Int) : Option Int :=
+  match keyBytes k with
+  | none => none
+  | some b => hashed b ps
 
 /-- The Java client's `DefaultPartitioner`: `toPositive(murmur2(key)) % numPartitions` as an index. -/
 def javaIndex (key : List UInt8) (n : Nat) : Nat :=
@@ -60,6 +82,12 @@ def rrPartition (st : RR) (ps : List Int) (start : Option Nat) : Option (Int × 
     match st'.rot with
     | [] => none
     | x :: _ => some (x, { st' with rot := rotate1 st'.rot })
+
+/-- The state a call leaves behind when it RAISES (the driver keeps going after an exception):
+    `_set_partitions` has already stored the sorted copy and the new cycle before `randint` or
+    `next` raises; without a refresh nothing changed. -/
+def rrAfterError (st : RR) (ps : List Int) : RR :=
+  if st.parts ≠ ps then { parts := sortInts ps, rot := ps } else st
 
 /-- `k` consecutive picks with the same list and (if refreshed) the same scripted start. -/
 def rrPicks (st : RR) (ps : List Int) (start : Option Nat) : Nat → Option (List Int × RR)
